@@ -6,7 +6,7 @@ TESTS = [
     # inside the fakes; a leaked lock is also seen as a later request that blocks although the model expects it to return.
     T("nfs40sim", "TestC14NFS40LocksReleased",
       {"checks": 2500, "shards": 2, "timeout": 300},
-      {"checks": 30000, "shards": 4, "timeout": 1500}),
+      {"checks": 20000, "shards": 4, "timeout": 1500}),
 ]
 ASSUMPTIONS = [
     "C14 for the NFSv4.0 server: a request parked by the harness sits inside a fake (directory wrapper around VirtualOpenChild, counting leaf in front of VirtualRead/VirtualWrite/VirtualSetAttributes) and therefore outside every lock of the code under test; the probes are TryLock hooks (VerifStateCounts, VerifOpenedCount, VerifUseCount, VerifNFSHandlePoolLockIsFree, VerifLockIsFree, VerifLeafLockIsFree) taken when all other requests have returned or are parked",
